@@ -3,15 +3,16 @@
 Emission: the shape of `Path::to_aml_bytes` is partitioned by its own comparisons on the segment
 count n; per cell it must be  ['\\' iff rooted]  (nothing | 2E | 2F n)  then the n segments verbatim,
 and the n == 0 arm must refuse.  Parsing: `Path::new` is evaluated on a symbolic string; rootedness
-must be starts_with('\\'), the segments the '.'-split of the remainder copied verbatim, and the
-4-byte assertion must precede the push of every segment (a malformed segment is refused, never
-emitted in altered form).  Every named object's name operand is this Path emission (C06)."""
+must be starts_with('\\'), the segments the '.'-split of the remainder copied verbatim, and every
+segment must pass a length-is-4 refusal (an assertion or the length check of copy_from_slice) on the
+way: a malformed segment is refused, never emitted in altered form.  Where in the loop body the
+refusal sits is immaterial, because a panicking constructor returns no Path.  Every named object's name operand is this Path emission (C06)."""
 from sym import *
 import sym
 from model import *
 from cells import *
 from emit import emission
-from evalr import SeqV, StructV
+from evalr import SeqV, StructV, RefV, Cell
 
 LEVEL = 'other'
 RULE = 'interval partition on the segment count for the emitter; abstract evaluation of the parser with the segment-length guard dominating the push'
@@ -35,7 +36,7 @@ def run(ctx, rep):
     body = segs[1:] if ok else segs
     # 2. prefix by cells of n
     ths = thresholds(segs_terms(body), n) | {1, 2, 3, 256}
-    refused0 = any(g['kind'] == 'panic-arm' and equal(ite(g['cond'], ONE, ZERO), ite(cmp('ne', n, ZERO), ONE, ZERO))[0] for g in I.guards)
+    refused0 = any(g['kind'] in ('panic-arm', 'assert') and equal(ite(g['cond'], ONE, ZERO), ite(cmp('ne', n, ZERO), ONE, ZERO))[0] for g in I.guards)
     rep.ob('refuse-empty', 'aml::Path', refused0, 'a path with no segment must be refused', detail={'guards': [show(g['cond']) for g in I.guards]})
     tail = ('rep', n, 'self.name_parts[i]', (('raw', ('a', 'self.name_parts[i]'), C(4)),))
     for lo, hi in make_cells(1, 255, ths):
@@ -71,42 +72,30 @@ def run(ctx, rep):
         body_ = rp[3]
         # one element pushed per split part, bytes of the part verbatim
         ok = len(body_) == 1 and body_[0][0] == 'elem' and isinstance(body_[0][1], SeqV) and body_[0][1].segs == [('raw', ('a', var), ('len', ('a', var)))]
-        ok = ok and src[0] == 'len' and 'split(46,from=starts_with(name, 92))' in show(src)
+        # the parts are split(name, '.', start) with start = 1 exactly when the string is rooted
+        sp_ = src[1] if src[0] == 'len' else None
+        ok = ok and sp_ is not None and sp_[0] == 'call' and sp_[1] == 'split' and sp_[2] == name and sp_[3] == C(0x2e) \
+            and _is_indicator(sp_[4], ('call', 'starts_with', name, C(0x5c)))
     rep.ob('parse-segments', 'aml::Path::new', ok, 'segments are not the verbatim \'.\'-split of the string after the root character: %r' % (parts,), sp=b['sp'],
            detail={'name_parts': repr(parts)[:300]})
     # 4. the 4-byte assertion guards every push
-    g = [x for x in I.guards if x['kind'] == 'assert']
-    okg = ok and any(x['cond'] == cmp('eq', C(4), ('len', ('a', var))) for x in g)
+    # (an explicit assertion, or the length check inside copy_from_slice: either refuses the segment)
+    g = [x for x in I.guards if x['kind'] in ('assert', 'copy_from_slice-len')]
+    four = lambda x: equal(ite(x['cond'], ONE, ZERO), ite(cmp('eq', ('len', ('a', var)), C(4)), ONE, ZERO))[0]
+    okg = ok and any(four(x) for x in g)
     rep.ob('refuse-malformed', 'aml::Path::new', okg, 'no assertion that every segment is exactly 4 bytes long before it is stored', sp=b['sp'], detail={'guards': [show(x['cond']) for x in I.guards]})
-    # order: the assertion precedes the push in the loop body (tree order)
-    rep.ob('refuse-before-store', 'aml::Path::new', _assert_before_push(b['body']), 'the segment is stored before its length is checked', sp=b['sp'])
-    # From<&str> delegates to new
+    # From<&str> is the same parser: evaluated on the same symbolic string it yields the same Path
     fb = f.bodies.get('<aml::Path as core::convert::From<&str>>::from')
     if fb:
-        calls = _callees(fb['body'])
-        rep.ob('parse-alias', 'From<&str> for Path', calls == {'aml::Path::new'}, 'From<&str> does not simply call Path::new: %s' % sorted(calls)); rep.analysed.add(fb['def'])
+        I2 = new_interp(f)
+        r2 = run_fn(I2, fb['def'], sym_args(I2, b))      # same parameter name, hence the same symbolic string
+        rep.analysed.add(fb['def'])
+        same = isinstance(r2, StructV) and not I2.tops and r2.fields['root'] == r.fields['root'] and repr(r2.fields['name_parts']) == repr(r.fields['name_parts'])
+        rep.ob('parse-alias', 'From<&str> for Path', same, 'From<&str> does not build the Path that Path::new builds: %r' % (r2,), sp=fb['sp'])
 
-def _callees(e):
-    out = set()
-    def walk(x):
-        if isinstance(x, dict):
-            if x.get('k') == 'Call' and (x.get('resolved') or x.get('callee')): out.add(x.get('resolved') or x.get('callee'))
-            for v in x.values(): walk(v)
-        elif isinstance(x, list):
-            for v in x: walk(v)
-    walk(e); return out
-
-def _assert_before_push(body):
-    """in pre-order, the first call to assert_failed appears before the first Vec::push"""
-    order = []
-    def walk(x):
-        if isinstance(x, dict):
-            if x.get('k') == 'Call':
-                c = x.get('resolved') or x.get('callee') or ''
-                if c.startswith('core::panicking::assert_failed') or c == 'core::panicking::panic': order.append('assert')
-                if c == 'alloc::vec::Vec::<T, A>::push': order.append('push')
-            for v in x.values(): walk(v)
-        elif isinstance(x, list):
-            for v in x: walk(v)
-    walk(body)
-    return 'assert' in order and 'push' in order and order.index('assert') < order.index('push')
+def _is_indicator(t, b):
+    """t is 1 when the boolean term b holds and 0 when it does not (case analysis on b)"""
+    for v in (0, 1):
+        r = rebuild(rebuild(t, lambda x: (C(v) if x == b else None)), lambda x: None)
+        if r != C(v): return False
+    return True
